@@ -8,25 +8,25 @@ namespace Babylon.Pages
 open Babylon.Core
 
 /-- states reachable from the initial state (empty cache, no thread inside) -/
-def Reach (c : Cfg) : State → Prop := Reachable (fun s => s = State.init c) (Step c)
+def Reach (c : Cfg) : State → Prop := Reachable (fun s => ∃ r0, s = State.initAt c r0) (Step c)
 
-theorem toks_init (c : Cfg) : toks c (State.init c) = [] := by
-  have h1 : cacheToks (State.init c) = [] := by
-    simp only [cacheToks, State.init]
+theorem toks_init (c : Cfg) (r0 : Nat) : toks c (State.initAt c r0) = [] := by
+  have h1 : cacheToks (State.initAt c r0) = [] := by
+    simp only [cacheToks, State.initAt]
     induction c.cap with
     | zero => rfl
     | succ n ih => simp [List.replicate_succ, ih]
-  have h2 : (State.init c).bufs.flatten = [] := by
-    simp only [State.init]
+  have h2 : (State.initAt c r0).bufs.flatten = [] := by
+    simp only [State.initAt]
     induction c.nthreads with
     | zero => rfl
     | succ n ih => simp [List.replicate_succ, ih]
-  have h3 : thToks c (State.init c) = [] := by
-    simp only [thToks, State.init, Th.toks]
+  have h3 : thToks c (State.initAt c r0) = [] := by
+    simp only [thToks, State.initAt, Th.toks]
     induction (List.range c.nthreads) with
     | nil => rfl
     | cons x xs ih => simpa using ih
-  unfold toks; rw [h1, h2, h3]; simp [State.init]
+  unfold toks; rw [h1, h2, h3]; simp [State.initAt]
 
 theorem Delta.nodup {c : Cfg} {s s' : State} (h : Delta c s s') (hn : (toks c s).Nodup) : (toks c s').Nodup := by
   cases h with
@@ -48,13 +48,13 @@ theorem Delta.conserve {c : Cfg} {s s' : State} (h : Delta c s s')
 duplicate — a token is in at most one place, at most once; a token in no place is upstream. -/
 theorem reach_nodup {c : Cfg} {s : State} (h : Reach c s) : (toks c s).Nodup := by
   refine Reachable.invariant (fun s => (toks c s).Nodup) ?_ ?_ s h
-  · intro s hs; subst hs; rw [toks_init]; exact List.nodup_nil
+  · intro s hs; obtain ⟨r0, rfl⟩ := hs; rw [toks_init]; exact List.nodup_nil
   · intro s s' hn hst; exact (Step.delta hst).nodup hn
 
 /-- **Conservation, always** (not only at quiescence): obtained − returned = live tokens. -/
 theorem reach_conserve {c : Cfg} {s : State} (h : Reach c s) : s.obtained = s.returned + (toks c s).length := by
   refine Reachable.invariant (fun s => s.obtained = s.returned + (toks c s).length) ?_ ?_ s h
-  · intro s hs; subst hs; rw [toks_init]; rfl
+  · intro s hs; obtain ⟨r0, rfl⟩ := hs; rw [toks_init]; simp [State.initAt]
   · intro s s' hc hst; exact (Step.delta hst).conserve hc
 
 /-! ### idle threads hold nothing -/
@@ -197,7 +197,7 @@ theorem step_idleEmpty {c : Cfg} {s s' : State} (h : Step c s s') (hi : IdleEmpt
 
 theorem reach_idleEmpty {c : Cfg} {s : State} (h : Reach c s) : IdleEmpty s := by
   refine Reachable.invariant IdleEmpty ?_ ?_ s h
-  · intro s hs; subst hs; intro t _; simp [State.init, Th.toks]
+  · intro s hs; obtain ⟨r0, rfl⟩ := hs; intro t _; simp [State.initAt, Th.toks]
   · intro s s' hi hst; exact step_idleEmpty hst hi
 
 /-- at quiescence no token is in flight -/
